@@ -293,9 +293,92 @@ func c16BRun(r *vt.Run, c c16BCase) {
 	})
 }
 
+// part C: members of the published list that have meanwhile been re-registered as cascade replicas
+type c16CCase struct {
+	N     int   `json:"ha_nodes_before"`
+	W     int   `json:"configured_count"`
+	Other []int `json:"other_replicas"` // per replica h3.. : 0 HA alive, 1 HA dead, 2 re-registered as cascade (alive), 3 cascade and dead
+}
+
+func c16CRun(r *vt.Run, c c16CCase) {
+	r.Eval()
+	var ha []string
+	for i := 1; i <= c.N; i++ {
+		ha = append(ha, fmt.Sprintf("h%d", i))
+	}
+	spec := Spec{HA: ha, Conf: map[string]string{"failover": "true", "failover_delay": "0s", "failover_cooldown": "1s",
+		"rpl_semi_sync_master_wait_for_slave_count": fmt.Sprint(c.W), "slave_catch_up_timeout": "4s", "wait_start_replication_timeout": "2s"}}
+	Bubble(r.T, spec, func(h *H) {
+		h.BuildConverged()
+		w := h.W
+		w.LogStmts = r.Replay != nil
+		a := h.Start("h2")
+		h.InjectHealth()
+		h.Tick(a) // h2 is the manager; the list is [h1..hN]
+		list := h.ActiveNodes()
+		isCascade := map[string]bool{}
+		for i, k := range c.Other {
+			x := fmt.Sprintf("h%d", i+3)
+			if k >= 2 {
+				// `mysync host remove x; mysync host add x --stream-from h2`
+				w.ZK.Del(vns + "/ha_nodes/" + x)
+				w.ZK.Put(vns+"/cascade_nodes/"+x, `{"stream_from":"h2"}`)
+				isCascade[x] = true
+			}
+			if k == 1 || k == 3 {
+				w.Servers[x].Crash(w)
+			}
+		}
+		w.Servers["h1"].Crash(w) // ... and before the list is published again the master dies
+		realAlive := 0
+		for _, x := range list {
+			if x != "h1" && !isCascade[x] && w.Servers[x].Up {
+				realAlive++
+			}
+		}
+		quorum := max(len(list)-min(len(list)/2, c.W), 1)
+		filed := false
+		w.OnApply = append(w.OnApply, func(ap *sim.Applied) {
+			if !ap.Effect {
+				return
+			}
+			if ap.Call.Kind == "zk" && ap.Call.Op == "create" && ap.Call.Target == vns+"/switch" {
+				filed = true
+				r.Count("failovers_filed")
+				if realAlive < quorum {
+					r.Violate("C16/7-cascade-never-counted-towards-quorum", fmt.Sprintf("automatic failover filed with %d alive HA replicas in the published list %v (cascade now: %v), quorum %d; case %+v", realAlive, list, isCascade, quorum, c), c16Case{C: &c})
+				}
+			}
+			if ap.Call.Kind == "sql" && ap.Call.Op == "SET_WRITABLE" && isCascade[ap.Call.Target] {
+				r.Violate("C16/8-cascade-never-promoted", fmt.Sprintf("cascade replica %s made writable; case %+v", ap.Call.Target, c), c16Case{C: &c})
+			}
+		})
+		for i := 0; i < 3; i++ {
+			h.InjectHealth()
+			np := len(w.Panics)
+			h.Tick(a)
+			if len(w.Panics) > np || len(w.Unknown) > 0 {
+				r.Violate("C16/0-engine", fmt.Sprintf("panics=%v at %s unknown=%v; case %+v", w.Panics, h.PanicWhere(), w.Unknown, c), c16Case{C: &c})
+				return
+			}
+			w.Advance(5 * time.Second)
+		}
+		r.Outcome(fmt.Sprintf("filed=%v enough=%v", filed, realAlive >= quorum))
+		r.Nontrivial(fmt.Sprintf("%+v", c))
+		if r.Replay != nil {
+			for _, l := range w.StmtLog {
+				if !strings.Contains(l, "(no effect)") {
+					r.Logf("%s", l)
+				}
+			}
+		}
+	})
+}
+
 type c16Case struct {
 	A *c16ACase `json:"resolver,omitempty"`
 	B *c16BCase `json:"move,omitempty"`
+	C *c16CCase `json:"quorum,omitempty"`
 }
 
 func checkC16(r *vt.Run) {
@@ -308,8 +391,37 @@ func checkC16(r *vt.Run) {
 		if rc.B != nil {
 			c16BRun(r, *rc.B)
 		}
+		if rc.C != nil {
+			c16CRun(r, *rc.C)
+		}
 		return
 	}
+	defer func() {
+		n := 0
+		for _, nn := range []int{3, 4} {
+			for _, wc := range []int{1, 2} {
+				total := 1
+				for i := 0; i < nn-2; i++ {
+					total *= 4
+				}
+				for code := 0; code < total; code++ {
+					n++
+					if !r.Mine(n) {
+						continue
+					}
+					c := c16CCase{N: nn, W: wc}
+					x := code
+					for i := 0; i < nn-2; i++ {
+						c.Other = append(c.Other, x%4)
+						x /= 4
+					}
+					r.Crumb(c16Case{C: &c})
+					c16CRun(r, c)
+				}
+			}
+		}
+		r.Bound("part_c_quorum_cases", n)
+	}()
 	maxK := 3
 	r.Bound("max_cascade_hosts", maxK)
 	idx := 0
